@@ -32,6 +32,9 @@ LITERALS = [
     ("u32", "1 + 2", "u32:3"), ("i16", "-(3)", "i16:-3"), ("u8", "u8::MAX", "u8:255"),
     ("::std::string::String", "::std::string::String::from(\"x\")", "String:78"),
     ("i128", "170141183460469231731687303715884105727", None),
+    # integer literals on float fields are converted with Into (f64: From<i32>); f32 has no such conversion
+    ("f64", "1", "f64:1.0"), ("f64", "7u8", "f64:7.0"), ("f32", "7u8", "f32:7.0"),
+    ("f64", "0x10", "f64:16.0"),
 ]
 # string literals whose text looks like code: they are values, never parsed
 for _txt in ["String::new()", "x.len()", "vec![1]", "1 + 2", "Default::default()", "::core::default::Default::default()",
